@@ -37,6 +37,9 @@ EXTENDS Integers, Sequences, FiniteSets
 \*         "none" | "subcall" (subproject(S, required: false)) |
 \*         "ovrmain" (meson.override_dependency(N, found object)) | "ovrnf" (... a not-found object)
 \* nofb  : reading of the one open corner (see OpenCorner): "existing" | "system"
+\* reuse : reading of what a re-configuration of the same build directory does with the external
+\*         dependencies found by the previous run (st.pc): "cached" (a positive result may be reused
+\*         without asking the system again) | "fresh" (it is looked up again)
 WrapModes == {"default", "nofallback", "nodownload", "forcefallback", "nopromote"}
 ProvStyles == { <<"none", "none">>, <<"dir", "ovr">>, <<"dir", "var">>, <<"dir", "broken">>,
                 <<"wrap", "ovr">>, <<"wrap", "var">>, <<"wrap", "broken">>,
@@ -44,10 +47,11 @@ ProvStyles == { <<"none", "none">>, <<"dir", "ovr">>, <<"dir", "var">>, <<"dir",
 Pres == {"none", "subcall", "ovrmain", "ovrnf"}
 FFFs == { {}, {"dep"}, {"sub"} }
 Readings == {"existing", "system"}
+Reuses == {"fresh", "cached"}
 
 Configs(sysvs, subv, mainv) ==
     { [sys |-> s, prov |-> ps[1], style |-> ps[2], subv |-> subv, mainv |-> mainv, wm |-> w, fff |-> f,
-       pre |-> p, nofb |-> r] :
+       pre |-> p, nofb |-> r, reuse |-> "fresh"] :
       s \in sysvs, ps \in ProvStyles, w \in WrapModes, f \in FFFs, p \in Pres, r \in Readings }
 
 \* ---- arguments of one lookup ---------------------------------------------
@@ -78,7 +82,9 @@ None == Res("none", 0)
 \* st.ovr   : explicit override of N (meson.override_dependency by the main project or by S)
 \* st.cache : first found result ("The first time a dependency is found ... the return value is now cached")
 \* st.sub   : "unconfigured" | "ok" | "failed"
-InitState == [ovr |-> None, cache |-> None, sub |-> "unconfigured"]
+\* st.pc    : the external dependency the *previous* configuration of this build directory found and left in
+\*            the persistent cache (None in a fresh build directory); constant during one configuration
+InitState == [ovr |-> None, cache |-> None, sub |-> "unconfigured", pc |-> None]
 
 \* required lookup with nothing suitable is an error, an optional one yields not-found
 Miss(a) == IF a.req THEN ERR ELSE NF
@@ -107,6 +113,11 @@ PreState(cfg) ==
       [] cfg.pre = "ovrmain" -> [InitState EXCEPT !.ovr = Res("main", cfg.mainv)]
       [] cfg.pre = "ovrnf"   -> [InitState EXCEPT !.ovr = Res("nf", 0)]
       [] OTHER               -> InitState
+\* ... in a build directory whose previous configuration left `pc` behind.  Overrides, the first-result
+\* cache and the state of S belong to one configuration run and start afresh.
+PreStateWith(cfg, pc) == [PreState(cfg) EXCEPT !.pc = pc]
+\* what a configuration that ends in `st` leaves behind for the next one
+NextPC(st) == IF st.cache.kind = "sys" THEN st.cache ELSE st.pc
 
 \* ---- the policy ---------------------------------------------------------------
 \* use of fallbacks is forced by the user
@@ -140,11 +151,19 @@ OpenCorner(cfg, st, a) == cfg.wm = "nofallback" /\ ~ForceCfg(cfg) /\ st.sub = "o
 
 Out(res, st, asked) == [res |-> res, st |-> st, asked |-> asked]
 
+\* Re-configuration: "unless fallback is forced ... in which case the system is not consulted" also rules out
+\* what an earlier run found on the system; an override of this run wins as always; otherwise a positive
+\* result of the previous run that satisfies the request may be reused (the documents do not promise it:
+\* reading "fresh" looks again).
+UsesPC(cfg, st, a) == /\ cfg.reuse = "cached" /\ st.pc # None /\ Sat(a.con, st.pc.v)
+                      /\ ~Forced(cfg, st, a)
+
 \* result, next state, and whether the system (pkg-config) may be asked about N
 Lookup(cfg, st, a) ==
     IF ~ValidArgs(a) THEN Out(ERR, st, FALSE)
     ELSE IF st.ovr # None THEN Out(Answer(st.ovr, a), st, FALSE)
     ELSE IF st.cache # None THEN Out(Answer(st.cache, a), st, FALSE)
+    ELSE IF UsesPC(cfg, st, a) THEN LET r == Res("sys", st.pc.v) IN Out(r, Remember(st, r), FALSE)
     ELSE LET fbk == HasFallback(cfg, st, a)
              forced == Forced(cfg, st, a)
          IN IF fbk /\ st.sub = "ok" /\ ~(OpenCorner(cfg, st, a) /\ cfg.nofb = "system")
